@@ -20,12 +20,17 @@ CLAIMED = {
              "does not fit (all u8 and all u16 values); (c) the per-position sum form of the invariant (one explicit position + abstract rest) "
              "is preserved by that settle step; (d) under total_borrowing <= floor(open_interest*cumulative_factor/UNIT) the real "
              "total_pending_borrowing_fees returns exactly floor(OI*next_factor/UNIT) - total_borrowing >= 0 and fails only when the rate or the "
-             "product does not fit.",
+             "product does not fit; (e) the real IncreasePosition::execute, run whole on a nearly concrete state (deposit-only increase of a "
+             "50-usd long position; symbolic market factor F, position factor f <= F and total borrowing), settles total borrowing with the "
+             "OLD position factor (delta = floor(size*F/UNIT) - floor(size*f/UNIT)) and then stores F in the position.",
         note=_ENV + "The step from the per-position sum B = sum_i floor(s_i*f_i/UNIT), f_i <= F, OI = sum_i s_i (established by (a)-(c) and C07) to "
              "the market-level bound B <= floor(OI*F/UNIT) assumed in (d) is the superadditivity of floor; it is decided by the solver only in "
-             "the thorough tier (c13_pending_borrowing_fees_sum_invariant_u8, explicit position + rest). That increase/decrease call "
-             "update_total_borrowing with the current cumulative factor before changing the size is visible only in the whole actions, which "
-             "do not finish; it is not claimed. The value of the borrowing rate itself is not part of the claim.",
+             "the thorough tier (c13_pending_borrowing_fees_sum_invariant_u8, explicit position + rest, partly concrete rate inputs; the variant "
+             "with every rate configuration symbolic does not finish and is tier=experimental). The order 'settle total borrowing, then update "
+             "factor and size' inside the actions is decided for IncreasePosition::execute only on the single nearly concrete state of (e) "
+             "(quick) and, with borrowing already settled, on the symbolic whole-increase harness of C07 (thorough); for "
+             "DecreasePosition::execute it is NOT decided (the whole action runs out of memory in symbolic execution): a reordering there "
+             "would not be seen. The value of the borrowing rate itself is not part of the claim.",
         technique="Kani/CBMC symbolic execution of the real borrowing code at u8 width, one inductive step with an abstract rest-of-positions aggregate, exact integer references",
         design="C07/C13"),
     "C07": dict(
@@ -34,16 +39,21 @@ CLAIMED = {
              "collateral token by exactly the given signed deltas, leaves every other pool and the position untouched, enforces the "
              "max-open-interest cap on the new side total, updates a present virtual inventory by the netting rule, and (without virtual "
              "inventory) fails only for range or cap violations; a zero usd delta writes nothing; (b) the real DecreasePosition::try_new / "
-             "is_remaining_size_too_small / check_partial_close / check_close: after the checks the size delta is either unchanged or the full "
+             "is_remaining_size_too_small / check_partial_close / check_close (every pool slot, price, threshold, flag, position and order "
+             "input symbolic): after the checks the size delta is either unchanged or the full "
              "size, a decrease that stays partial leaves remaining usd size >= the minimum and size_delta_in_tokens < size_in_tokens (so "
              "should_remove cannot be reached by it), a decrease that would zero the tokens is promoted to a full close, and a full close "
              "drops the separate collateral withdrawal; (c) the real IncreasePosition::process_collateral moves the collateral-sum slot by "
-             "exactly the returned collateral delta (= deposit minus all fees) and nothing but that slot, the liquidity pool and the "
-             "claimable-fee pool.",
-        note=_ENV + "Not decided: the glue inside Increase/DecreasePosition::execute that applies these pieces (sizes += deltas, the "
-             "should_remove branch zeroing the position, the collateral-sum update of a decrease): the whole-action harnesses "
-             "(harness/perp/src/whole.rs) do not finish symbolic execution and are kept as tier=experimental. (b) is decided with the pnl cap "
-             "not binding and flat prices in the quick tier (all pools/prices symbolic in the thorough tier). update_open_interest ignores the "
+             "exactly the returned collateral delta (= deposit minus order, borrowing and funding fees, all symbolic) and nothing but that slot, "
+             "the liquidity pool and the claimable-fee pool.",
+        note=_ENV + "Quick tier: components only. Thorough tier adds the WHOLE real IncreasePosition::execute (long/long-collateral and "
+             "short/short-collateral; all pools, position, deposit, size delta and flat prices symbolic; no fees / impact / thresholds; "
+             "~42 min, 13 GB each): on Ok the three pool slots move by exactly the position's own deltas, every other slot is untouched, the "
+             "borrowing identity of C13 holds and the position is open on both dimensions. Not decided: the glue inside "
+             "DecreasePosition::execute (the should_remove branch zeroing the position, the collateral-sum update of a decrease, the order of "
+             "the open-interest update): its whole-action harness runs out of 40 GB during symbolic execution and is kept as "
+             "tier=experimental; what is decided for decreases is that the deltas handed to that glue are right ((a), (b)). "
+             "update_open_interest ignores the "
              "token delta when the usd delta is zero; the callers pass a zero token delta in that case (increase: get_execution_params; "
              "decrease: size_delta_in_tokens(0) = 0 for a non-empty position).",
         technique="Kani/CBMC symbolic execution of the real open-interest / partial-close / collateral code at u8 width with exact integer references and frame (whole-struct) comparison",
@@ -71,8 +81,8 @@ CLAIMED = {
         text=BOUNDED + "component level, T=u8/DECIMALS=1: (a) the real PositionExt::size_delta_in_tokens closes ceil(tokens*delta/size) tokens of a "
              "long and floor(...) of a short, all tokens on a full close (exact, all values); (b) the real "
              "IncreasePosition::get_execution_params gives a long floor(size/max_price) and a short ceil(size/min_price) tokens and converts "
-             "price impact rounding gains down (at the max price) and losses up in magnitude (at the min price) (no-impact configuration in "
-             "the quick tier, symbolic impact factors in the thorough tier); (c) the real cap_positive_position_price_impact / "
+             "price impact rounding gains down (at the max price) and losses up in magnitude (at the min price) (with and without symbolic impact factors, "
+             "impact pool and max positive factor); (c) the real cap_positive_position_price_impact / "
              "cap_negative_position_price_impact equal min(impact, pool*min_price, floor(|size|*factor/UNIT)) resp. max(impact, "
              "-floor(|size|*factor/UNIT)) with the exact difference returned; (d) composition: a position opened from empty through "
              "get_execution_params and valued by the real pnl_value for a full close at the same (spread) prices has pnl <= 0 and "
@@ -89,8 +99,8 @@ CLAIMED = {
              "intermediate output / secondary output / collateral amounts, conserves each pool token exactly over liquidity pool + "
              "claimable fees + remaining collateral + outputs + claimable collateral; the only amount leaving these holdings is funding "
              "paid in the collateral token, which equals the funding fee unless on_insufficient_funding_fee_payment was called with exactly "
-             "the shortfall; (b) IncreasePosition::process_collateral: deposit == d(collateral sum) + d(liquidity) + d(claimable fees) + "
-             "funding paid; (c) funding indices: for any funding value, open interests, price and starting index (packing adjustment 1 and 2) "
+             "the shortfall; (b) IncreasePosition::process_collateral with symbolic order, borrowing and funding fees: deposit == d(collateral sum) + "
+             "d(liquidity) + d(claimable fees) + funding paid; (c) funding indices: for any funding value, open interests, price and starting index (packing adjustment 1 and 2) "
              "the amount charged to the whole paying side (pack up, unpack up) is >= value/price >= the amount credited to the whole "
              "receiving side (pack down, unpack down). KNOWN-FINDING fee_credit_rounding: in the fee step, when output and collateral are "
              "exhausted and the unpaid rest floors to zero secondary tokens, pool and fee receiver are credited with the nominal fee; the "
